@@ -23,7 +23,7 @@ def check(ck: Checker) -> None:
         "C10.reprotect: after relinking, the cache object is protected again on every normal path",
         "C10.state: hash-state rows are (path, change.new.oid, stat of that path) recorded only for successfully checked-out files and saved after the loop; mtimes of freshly written files take precedence over pre-checkout mtimes in the link token",
         "C10.unprotect: un-protecting a link copies to a fresh temp name, removes the link, renames the temp over it, then makes it writable",
-        "C10.linkkind: whether a workspace file counts as copy / hardlink / symlink depends only on that file's own metadata",
+        "C10.linkkind: whether a workspace file counts as copy / hardlink / symlink depends only on that file's own metadata; the hard-link identity test (inode equality with the cache object's own stat) is never applied to a symlink",
         "C10.memo: no per-checkout memo (created directories) is shared between Link instances",
     ]
     ck.not_decided = ["idempotence / second checkout reports nothing (needs execution)", "the full link-type decision table of _needs_relink", "actual link kinds created by the OS"]
@@ -246,6 +246,11 @@ def _linkkind(ck: Checker) -> None:
     def kind_flag(*consts):
         for t in g0.nodes.values():
             e = t.ast
+            if t.kind == "test" and isinstance(e, ast.Name):
+                # `wants_hardlink = link_type == "hardlink"` tested by name
+                ds = [d for d in scope_of(fn).get(e.id) if d.kind == "assign"]
+                if len(ds) == 1 and isinstance(ds[0].value, ast.Compare):
+                    e = ds[0].value
             if t.kind != "test" or not isinstance(e, ast.Compare) or len(e.ops) != 1:
                 continue
             c0 = e.comparators[0]
@@ -262,6 +267,10 @@ def _linkkind(ck: Checker) -> None:
         return None
 
     f_sym, f_hard, f_copy = kind_flag("symlink"), kind_flag("hardlink"), kind_flag("copy", "reflink")
+    # fall back on the baseline names when the tests are written in a shape kind_flag does not follow
+    f_sym = f_sym or ("is_symlink" if scope_of(fn).get("is_symlink") else None)
+    f_hard = f_hard or ("is_hardlink" if scope_of(fn).get("is_hardlink") else None)
+    f_copy = f_copy or ("is_copy" if scope_of(fn).get("is_copy") else None)
     flags = {f_sym: "is_symlink", f_hard: "is_hardlink", f_copy: "is_copy"}
     for name in (f_sym, f_hard, f_copy):
         for d in scope_of(fn).get(name or ""):
@@ -272,6 +281,9 @@ def _linkkind(ck: Checker) -> None:
             ok = names <= {mparam, f_sym, f_hard, f_copy}
             ck.require(ok, "C10.linkkind", fn, d.node, f"{flags[name]} depends only on the workspace file's own metadata", f"`{name} = {norm(d.value)}` depends on {sorted(names - {mparam})}: a file hard-linked to something other than the cache would be treated as an independent copy and never relinked")
     ck.floor("C10.linkkind", n, 3, "link-kind classifications in _needs_relink")
+    from . import round5 as _r5
+
+    _r5.hardlink_excludes_symlink(ck, "C10.linkkind", f_sym, f_hard)
     # ... and that metadata is the one stat'ed from the workspace file (change.old), not the target entry's
     n_call = 0
     for caller in fn.module.funcs.values():
